@@ -566,6 +566,136 @@ class Gen:
             self.add({'kind': 'bitfield', 'name': self.name('S'), 'base': 8, 'base_text': bt, 'fields': [f], 'unstructured': True},
                      'F7d', 'reject', [tag])
 
+    # -- F7p: perturbed declarations (verdict differential: rustc = model = rule, whatever the verdict is) -----
+    def perturbed_bitfields(self, count):
+        """valid single-field declarations of every shape with ONE random perturbation each; the rule (valid_decl), the model
+        of the macro (accept_decl) and rustc must agree on each, accepted or not"""
+        rng = self.rng
+        import copy
+        made = 0
+        guard = 0
+        while made < count and guard < count * 20:
+            guard += 1
+            W = rng.choice([8, 16, 32, 64, 128, 7, 9, 12, 24, 33, 63, 65, 100, 127])
+            S = storage(W)
+            shape = rng.choice(['scalar', 'scalar', 'bool', 'list', 'list', 'array', 'array', 'boolarray', 'listarray'])
+            if shape == 'scalar':
+                n = rng.randint(1, min(W, 24))
+                lo = rng.randint(0, W - n)
+                f = self.field('x', self.type_for_width(n, allow_bool=False), [('r', lo, lo + n - 1)] if n > 1 else [('s', lo)])
+            elif shape == 'bool':
+                f = self.field('x', {'k': 'bool'}, [('s', rng.randint(0, W - 1))])
+            elif shape == 'list':
+                f = self.list_field(W, 'x')
+            elif shape == 'array':
+                f = self.array_field(W, 'x')
+                if f is not None and f['ty']['k'] == 'bool':
+                    f = None
+            elif shape == 'boolarray':
+                K = rng.randint(2, min(W, 8))
+                lo = rng.randint(0, W - K)
+                f = self.field('x', {'k': 'bool'}, [('s', lo)], count=K, stride=rng.choice([None, 1]))
+            else:
+                f = self.list_field(W, 'x', array=True)
+            if f is None:
+                continue
+            f['acc'] = 'rw'
+            f = copy.deepcopy(f)
+            ents = f['entries']
+            j = rng.randrange(len(ents))
+            e = ents[j]
+            lo_j, n_j = entry_range(e)
+            kind = rng.choice(['shift', 'shift', 'shift', 'grow', 'reverse', 'type', 'count', 'stride', 'stride', 'permute', 'none'])
+            tag = kind
+            if kind == 'shift':
+                # move entry j so that its last bit lands just around the base width or the storage width
+                tgt = rng.choice([W - 1, W, W + 1, S - 1, S, S + 1, S + 7])
+                nlo = tgt - n_j + 1
+                if nlo < 0:
+                    continue
+                ents[j] = ['s', nlo] if e[0] == 's' else ['r', nlo, nlo + n_j - 1]
+                tag = 'shift-entry-%d-of-%d-to-%s' % (j, len(ents), 'W%+d' % (tgt - W))
+            elif kind == 'grow':
+                if e[0] == 's':
+                    ents[j] = ['r', e[1], e[1] + 1]
+                else:
+                    ents[j] = ['r', e[1], max(e[1], e[2] + rng.choice([-1, 1]))]
+            elif kind == 'reverse':
+                if e[0] == 's':
+                    continue
+                ents[j] = ['r', e[2], e[1]] if e[2] != e[1] else ['r', e[1] + 1, e[1]]
+                tag = 'reverse-entry-%d-of-%d' % (j, len(ents))
+            elif kind == 'type':
+                t = f['ty']
+                if t['k'] in ('u',):
+                    nn = t['n'] + rng.choice([-1, 1])
+                    if nn < 1 or nn > 128:
+                        continue
+                    f['ty'] = {'k': 'u', 'n': nn}
+                elif t['k'] == 'bool':
+                    f['ty'] = {'k': 'u', 'n': rng.choice([1, 2])}
+                else:
+                    f['ty'] = {'k': 'bool'}
+            elif kind == 'count':
+                if f.get('count') is None:
+                    f['count'] = rng.choice([0, 1, 2])
+                else:
+                    f['count'] = rng.choice([0, 1, f['count'] + 1, f['count'] + 2, 2])
+            elif kind == 'stride':
+                if f.get('count') is None:
+                    f['stride'] = rng.choice([1, total(f), 8])
+                else:
+                    n = total(f)
+                    f['stride'] = rng.choice([None, 0, max(0, n - 1), n, n + 1, 1])
+                tag = 'stride=%s' % f['stride']
+            elif kind == 'permute':
+                rng.shuffle(ents)
+            d = {'kind': 'bitfield', 'name': self.name('S'), 'base': W, 'fields': [f]}
+            self.add(d, 'F7p', 'model', [shape, tag])
+            made += 1
+
+    def perturbed_enums(self, count):
+        rng = self.rng
+        for k in range(count):
+            n = rng.choice([1, 2, 2, 3, 3, 4, 5, 7, 8, 9, 15, 16, 17, 31, 32, 33, 63, 64])
+            full = n <= 5 and rng.random() < 0.5
+            if full:
+                discrs = list(range(1 << n))
+                rng.shuffle(discrs)
+            else:
+                kk = rng.randint(1, min((1 << n) - 1, 6)) if n > 1 else 1
+                discrs = rng.sample(range(min(1 << n, 1 << 20)), kk) if n <= 20 else \
+                    list({rng.getrandbits(n) for _ in range(kk)} | {(1 << n) - 1})
+            exh = rng.choice(['true', 'false', None, 'conditional'])
+            if rng.random() < 0.6:
+                exh = 'true' if full else rng.choice(['false', None])
+            vs = [{'name': 'V%d' % i, 'discr': x} for i, x in enumerate(discrs)]
+            kind = rng.choice(['big', 'big', 'big', 'drop', 'add', 'cfg', 'none', 'exh'])
+            tag = kind
+            if kind == 'big':
+                j = rng.randrange(len(vs))
+                big = (1 << n) + rng.choice([0, 0, 1, 5])
+                if n >= 64 or big in discrs:
+                    continue
+                vs[j]['discr'] = big
+                tag = 'discr-2^n+-at-%d-of-%d' % (j, len(vs))
+            elif kind == 'drop' and len(vs) > 1:
+                vs.pop(rng.randrange(len(vs)))
+            elif kind == 'add':
+                free = [x for x in range(min(1 << n, 64)) if x not in discrs]
+                if free:
+                    vs.append({'name': 'Extra', 'discr': rng.choice(free)})
+                else:
+                    vs.append({'name': 'Extra', 'discr': discrs[0], 'cfg': 'any'})
+            elif kind == 'cfg':
+                vs[rng.randrange(len(vs))]['cfg'] = rng.choice(['all', 'any'])
+            elif kind == 'exh':
+                exh = rng.choice(['true', 'false', None, 'conditional'])
+            d = {'kind': 'enum', 'name': self.name('E'), 'bits': n, 'exh': exh, 'variants': vs}
+            if any(v.get('discr') is not None and v['discr'] >= (1 << 63) for v in vs):
+                d['repr'] = 'u64'
+            self.add(d, 'F7q', 'model', [tag, 'exh=%s' % exh])
+
     def exhaustive_small_slice(self):
         """every (lo, hi) in [0, 10]^2 on bases u8 and u9, type widths around hi-lo+1 (thorough tier: all widths <= 10)"""
         rng = self.rng
@@ -593,6 +723,8 @@ class Gen:
         self.fam_enums()
         self.invalid_enums()
         self.invalid_bitfields(6 if q else 60)
+        self.perturbed_bitfields(150 if q else 1500)
+        self.perturbed_enums(80 if q else 600)
         self.exhaustive_small_slice()
         return self.decls
 
